@@ -565,7 +565,36 @@ def conc_program(rng, small=True):
                 p.append(["clear"])
         progs.append(p)
     return {"kind": "conc", "cap": cap, "threads": progs, "sleepy": rng.random() < 0.6,
-            "pace": rng.choice([1, 2, 4, 8]), "small": small}
+            "pace": rng.choice([2, 8, 32, 128]), "small": small}
+
+
+def conc_roles(rng):
+    """long adversarial round: each thread has a role (lookups of entries with a deadline — these read the
+    clock in the middle of the operation —, stores, deletes, clears) on one or two keys, slow clock."""
+    nthreads = rng.choice([2, 3, 4, 6, 8])
+    keys = ["a", "b"][:rng.choice([1, 1, 2])]
+    roles = ["get", "set"] + [rng.choice(["get", "set", "del", "del", "clear", "mix"]) for _ in range(nthreads - 2)]
+    rng.shuffle(roles)
+    n = rng.choice([40, 80, 150])
+    progs = []
+    for t, role in enumerate(roles):
+        p = []
+        for i in range(n):
+            k = rng.choice(keys)
+            r = role if role != "mix" else rng.choice(["get", "set", "del", "clear"])
+            if rng.random() < 0.1:
+                r = rng.choice(["get", "set"])
+            if r == "get":
+                p.append(["get", k])
+            elif r == "set":
+                p.append(["set", k, t * 1000 + i + 1, rng.choice([1, 2, 4, 4, None])])
+            elif r == "del":
+                p.append(["del", k])
+            else:
+                p.append(["clear"])
+        progs.append(p)
+    return {"kind": "conc", "cap": rng.choice([1, 2, 2, 3]), "threads": progs, "sleepy": True,
+            "pace": rng.choice([64, 256]), "small": False, "roles": roles}
 
 
 def run_threads(case):
@@ -774,12 +803,15 @@ def necessary_conditions(case, events, cache):
 
 def check_conc(chk, case, replay=False):
     """runs case['rounds'] free-running rounds of the thread programs; every history must be linearisable."""
-    rounds = int(case.get("rounds", 1)) * (8 if replay else 1)
+    rounds = int(case.get("rounds", 1)) * (2000 if replay else 1)
     old = sys.getswitchinterval()
     sys.setswitchinterval(case.get("switch", 1e-6))
     pend = []
+    t_start = time.time()
     try:
         for rnd in range(rounds):
+            if replay and time.time() - t_start > 40:  # a replay repeats the round until it fails or 40 s pass
+                break
             events, cache, errors, stuck = run_threads(case)
             nthreads = len(case["threads"])
             chk.mark(("conc", rnd, json.dumps(case["threads"], default=repr), chk.evaluations), True)
@@ -981,7 +1013,7 @@ def run(chk):
         check_conc(chk, c)
         nsmall += 1
         if nsmall % 6 == 0:
-            c = conc_program(rng, small=False)
+            c = conc_program(rng, small=False) if nlong % 3 == 0 else conc_roles(rng)
             c["rounds"] = 2
             check_conc(chk, c)
             nlong += 1
